@@ -163,6 +163,8 @@ def judge(case, val, out):
     ref = [U(p, (4, 4)) for p in case["ref"]]
     scale = max([1.0] + [float(np.abs(p[:3, 3]).max()) for p in est + ref])
     model = val[1] if isinstance(val, tuple) and len(val) == 2 and val[0] == "Some" else val
+    if case.get("unequal") and "refused" not in out:
+        return _sv("trajectories of different length (%d vs %d poses) were aligned instead of refused" % (len(est), len(ref)))
     if "refused" in out:
         return None if model is None else _mv("implementation refused, model returns a result", "Align")
     after = [U(p, (4, 4)) for p in out["poses"]]
@@ -285,6 +287,17 @@ def gen(ctx):
         nn = -1 if i % 4 else int(rng.integers(3, n + 1))
         cases.append({"kind": "align", "est": [H(p) for p in est], "ref": [H(p) for p in ref], "cs": mode == 1, "os": mode == 2,
                       "n": nn, "from_quat": bool(i % 2), "twice": bool(noise > 0 and noise < 1.0 and n >= 6 and i % 2 == 0)})
+    # trajectories of different length (not synchronised): align() must refuse, not align against a prefix
+    for i in range(ctx.n(12, 40)):
+        n = int(rng.integers(6, 30))
+        ref, est = pair(n, 0.05, 1.0)
+        k = int(rng.integers(3, n))
+        if i % 2:
+            est = est[:k]
+        else:
+            ref = ref[:k]
+        cases.append({"kind": "align", "est": [H(p) for p in est], "ref": [H(p) for p in ref], "cs": bool(i % 3 == 1), "os": bool(i % 3 == 2),
+                      "n": -1, "from_quat": bool(i % 2), "unequal": True})
     for i in range(ctx.n(30, 150)):
         n = int(rng.integers(1, 30))
         ref, est = pair(n, 0.05, 1.0)
